@@ -92,7 +92,8 @@ def run(ck):
     ch, err = c14_facts.main()
     ck.oblige("translator c14_facts.py read RemapCompareLess and the SOURCE_DATE_EPOCH branch", err is None, err or "")
     ck.lean_obligations("IgVerif.Props.C14", THEOREMS, PARTIAL)
-    ck.trusted += ["tools/extract/c14_facts.py", "harness/preload/faketime.c (time()), harness/preload/commalocale.c (',' decimal point)",
+    ck.trusted += ["valgrind 3.19 memcheck (definedness tracking) for the condition `memcheck`: observes uses of uninitialised values on the explored inputs, proves nothing about others",
+                   "tools/extract/c14_facts.py", "harness/preload/faketime.c (time()), harness/preload/commalocale.c (',' decimal point)",
                    "glibc malloc tunables and setarch -R as the means to vary addresses; sha256"]
     bdir = iglib.build_repo("std")
     shim_time = iglib.build_preload("faketime")
